@@ -3,7 +3,7 @@ from ..rules import folds
 from .common import declare
 
 RULES = ['BATCH-PURE', 'FOLD-PURE', 'STATE-PLUMB', 'CTOR-COPY', 'ACC-CONTRACT', 'FOLD-DERIVE']
-FLOORS = {'FOLD-PURE': 50, 'STATE-PLUMB': 12, 'CTOR-COPY': 7, 'ACC-CONTRACT': 2, 'FOLD-DERIVE': 14}
+FLOORS = {'FOLD-PURE': 50, 'STATE-PLUMB': 12, 'CTOR-COPY': 3, 'ACC-CONTRACT': 2, 'FOLD-DERIVE': 14}
 
 META = {
     'level': "Static argument that needs no numeric reasoning: if every fold operator is a pure function of (state, batch, "
